@@ -166,6 +166,15 @@ def run(src: Path, ex: Any) -> str:
         out.append(f"def dataAcksDelivered : Nat := {delivered}   -- `{ACK}` calls when the stream exists (Body handed to it)")
         out.append(f"def dataAcksMissing : Nat := {missing}   -- … when `self.streams[event.stream_id]` raises KeyError (response already completed)")
         out.append("def dataAckArgs : List String := [" + ", ".join(ex.q(a) for a in args) + "]   -- argument lists of those calls")
+        # which length is given back: the event's flow-controlled length (payload + pad length byte + padding, what the frame took
+        # from the sender's windows) or something else (C09: upload credit is conserved)
+        amounts = sorted({ast.unparse(c.args[0]) if c.args else "?" for c in _calls(branch, ACK)})
+        AMOUNT = {"event.flow_controlled_length": "flowLen", "len(event.data)": "dataLen"}
+        if len(amounts) != 1 or amounts[0] not in AMOUNT:
+            fail("dataAckAmount", f"first argument of {ACK} is {amounts}: neither event.flow_controlled_length nor len(event.data)")
+        else:
+            out.append("set_option linter.unusedVariables false in")
+            out.append(f"def dataAckAmount (dataLen flowLen : Nat) : Nat := {AMOUNT[amounts[0]]}   -- `{amounts[0]}`: the amount acknowledged for one DATA frame")
     except Unsupported as e:
         fail("dataAcks", str(e))
     except Exception as e:  # noqa
